@@ -1,4 +1,4 @@
-CONSTANT Slice = "faults"
+CONSTANT Rate = 13
 INIT MCInit
 NEXT MCNext
 INVARIANTS Laws Emit
